@@ -270,6 +270,20 @@ def run_unit(unit, tier, acc):
                 check(ver, ('map', s, ('last',)), env, w, acc, g)
                 check(ver, ('map', ('map', s, ('seq', [('ctx',), L(7)])), ('pos',)), env, w, acc, g)
         nums = [x for x in short if all(isinstance(i, int) for i in x)] + [[1, 2, 3], [3, 1], [2, 2, 1]]
+        # the focus inside the body of for / some / every is the one of the whole expression, whatever the range expressions did
+        # with their own focus (a filter sets an inner focus on every item it tests)
+        for o in nums:
+            for a in nums:
+                env = {'o': o, 'a': a}
+                rng = ('filter', V('a'), ('gcmp', '>=', ('ctx',), L(1)))
+                for q in ('some', 'every'):
+                    check(ver, ('filter', V('o'), (q, [('x', rng)], ('gcmp', '=', ('ctx',), V('x')))), env, w, acc, g)
+                    check(ver, ('filter', V('o'), (q, [('x', rng), ('y', rng)], ('gcmp', '=', ('ctx',), ('arith', '+', V('x'), V('y'))))), env, w, acc, g)
+                check(ver, ('filter', V('o'), ('gcmp', '=', ('for', [('x', rng)], ('ctx',)), V('a'))), env, w, acc, g)
+                if ver != '2.0':
+                    check(ver, ('map', V('o'), ('for', [('x', rng)], ('seq', [('ctx',), V('x')]))), env, w, acc, g)
+                    check(ver, ('map', V('o'), ('some', [('x', rng)], ('gcmp', '=', ('ctx',), V('x')))), env, w, acc, g)
+                    check(ver, ('map', V('o'), ('every', [('x', rng)], ('gcmp', '<=', ('ctx',), V('x')))), env, w, acc, g)
         # later ranges that depend on earlier variables of the same clause
         for a in nums:
             env = {'a': a}
